@@ -57,6 +57,7 @@ func checkC19(p *Prog, r *Report) {
 	r.rule("C19.O8", "the handler slot is stored only with values of static type OOBCallBackType and asserted only to that type", 2)
 	r.rule("C19.O9", "no return path leaves a mutex held (package-wide lock balance): an OOB call can never stall the stream permanently", 1)
 
+	r.rule("C19.O11", "a closed session handles no more input (the dialled side has no conversation test for OOB, so a closed session still parked in a read on a shared socket would take the next conversation's messages): in the session receive loops every path from the socket read to packetInput passes the isClosed() test", 2)
 	r.rule("C19.O10", "the receive loops hand every datagram to packetInput whatever its length: no length test on the way to the call is stricter than packetInput's own minimum min(IKCP_OVERHEAD, fecHeaderSizePlus2+convSize) — a short (even empty) OOB payload is a valid packet", 2)
 
 	fEnc := p.Field("UDPSession", "fecEncoder")
@@ -64,6 +65,7 @@ func checkC19(p *Prog, r *Report) {
 
 	// ---- O10
 	checkNoLengthFilterBeforePacketInput(p, r)
+	checkClosedTestBeforeInput(p, r)
 
 	// ---- O1
 	for _, name := range []string{"(*UDPSession).SendOOB", "(*UDPSession).SetOOBHandler", "(*UDPSession).GetOOBMaxSize"} {
@@ -629,5 +631,62 @@ func checkNoLengthFilterBeforePacketInput(p *Prog, r *Report) {
 	}
 	if n == 0 {
 		r.bad("C19.O10", "receive loops", "-", "length filter before packetInput", "no call of packetInput with a datagram slice found", "")
+	}
+}
+
+// checkClosedTestBeforeInput: C19.O11.
+func checkClosedTestBeforeInput(p *Prog, r *Report) {
+	isClosedM := p.Method("UDPSession", "isClosed")
+	pin := p.Method("UDPSession", "packetInput")
+	n := 0
+	for _, name := range []string{"(*UDPSession).defaultReadLoop", "(*UDPSession).readLoop"} {
+		fi := p.FuncByName(name)
+		if fi == nil {
+			continue
+		}
+		c := p.CFG(fi)
+		var reads []Point
+		for _, pt := range c.AllPoints() {
+			inspectShallow(pt.Node(), func(x ast.Node) bool {
+				if call, ok := x.(*ast.CallExpr); ok {
+					if sel, ok := ast.Unparen(call.Fun).(*ast.SelectorExpr); ok && (sel.Sel.Name == "ReadFrom" || sel.Sel.Name == "ReadBatch") {
+						reads = append(reads, pt)
+					}
+				}
+				return true
+			})
+		}
+		isTest := func(nd ast.Node, _ Point) bool {
+			hit := false
+			inspectShallow(nd, func(x ast.Node) bool {
+				if call, ok := x.(*ast.CallExpr); ok && p.Callee(call) == isClosedM {
+					hit = true
+				}
+				return true
+			})
+			return hit
+		}
+		isInput := func(nd ast.Node, _ Point) bool {
+			hit := false
+			inspectShallow(nd, func(x ast.Node) bool {
+				if call, ok := x.(*ast.CallExpr); ok && p.Callee(call) == pin {
+					hit = true
+				}
+				return true
+			})
+			return hit
+		}
+		for _, rd := range reads {
+			n++
+			res := c.FindPath(PathQuery{From: Point{rd.B, rd.I + 1}, IsTarget: isInput, IsBarrier: isTest})
+			if res.Found {
+				r.bad("C19.O11", fi.Name, p.Pos(rd.Node()), "closed test between the read and packetInput in "+fi.Name, "datagrams read after Close are still handed to the session: its OOB handler receives messages of whoever uses the socket next (the client side has no conversation test for OOB)", c.DescribePath(res.Path))
+			} else {
+				r.ok("C19.O11", fi.Name, p.Pos(rd.Node()), "closed test between the read and packetInput in "+fi.Name, "isClosed() is tested on every path from the read to packetInput")
+			}
+		}
+	}
+	if n == 0 {
+		r.bad("C19.O11", "session receive loops", "-", "closed test", "no socket read found in the session receive loops", "")
 	}
 }
